@@ -68,4 +68,6 @@ def bernoulli_lh_ratio(x, po, pa):
 	float
 	   likelihood ratio 
 	"""
-	return (pa ** np.sum(x)) * (1 - pa)**(len(x) - np.sum(x)) / ((po ** np.sum(x)) * (1 - po)**(len(x) - np.sum(x)))
+	nsucc = np.sum(np.asarray(x, dtype=float))    # counts in double precision whatever dtype the sample is stored in
+	nfail = len(x) - nsucc
+	return (pa ** nsucc) * (1 - pa)**nfail / ((po ** nsucc) * (1 - po)**nfail)
